@@ -49,7 +49,7 @@ func verifSeen(err, derr error, invoked int64) (int64, int64) {
 		return breaker.VSNil, 0
 	case invoked == 0 && err == breaker.ErrServiceUnavailable:
 		return breaker.VSBreakerUnavailable, 0
-	case invoked == 0 && err == context.Canceled:
+	case invoked == 0 && breaker.VerifIsCtxErr(err):
 		return breaker.VSCtxErr, 0
 	case derr != nil && err == derr:
 		return breaker.VSSame, 0
@@ -61,6 +61,14 @@ func verifSeen(err, derr error, invoked int64) (int64, int64) {
 	}
 	return breaker.VSOtherSeen, 0
 }
+
+// the stream handed to StreamBreakerInterceptor: only its context can be asked for
+type verifStream struct {
+	grpc.ServerStream
+	ctx context.Context
+}
+
+func (s verifStream) Context() context.Context { return s.ctx }
 
 const (
 	vdStallTimeout = 21
@@ -129,12 +137,11 @@ func TestVerifC01W(t *testing.T) {
 	}
 	defer w.Close()
 	timex.SetFakeNow(time.Duration(1e15))
-	cancelled, cancel := context.WithCancel(context.Background())
-	cancel()
 	for _, c := range cases {
 		out := breaker.VerifWOut{ID: c.ID}
 		for i, k := range c.Calls {
-			rej, ctxdone, class, code := k[1] == 1, k[2] == 1, k[3], k[4]
+			rej, class, code := k[1] == 1, k[3], k[4]
+			ctx, atReturn := breaker.VerifCtx(k[2])
 			method := fmt.Sprintf("/verif.c01ws/%d/%d", c.ID, i)
 			p, err := breaker.VerifAttach(breaker.GetBreaker(method))
 			if err != nil {
@@ -148,14 +155,11 @@ func TestVerifC01W(t *testing.T) {
 			pv := &struct{ n int }{i}
 			down := func() error {
 				invoked++
+				atReturn() // modes 2, 3: the context is done when the handler returns / panics
 				if class == breaker.VDPanic {
 					panic(pv)
 				}
 				return derr
-			}
-			ctx := context.Background()
-			if ctxdone {
-				ctx = cancelled
 			}
 			if k[0] == 22 {
 				// zrpc's order: Breaker around Timeout around the handler.  A stalling handler is
@@ -176,7 +180,7 @@ func TestVerifC01W(t *testing.T) {
 				}()
 				var e error
 				if k[0] == 2 {
-					e = StreamBreakerInterceptor(nil, nil, &grpc.StreamServerInfo{FullMethod: method},
+					e = StreamBreakerInterceptor(nil, verifStream{ctx: ctx}, &grpc.StreamServerInfo{FullMethod: method},
 						func(srv any, stream grpc.ServerStream) error { return down() })
 				} else {
 					_, e = UnaryBreakerInterceptor(ctx, nil, &grpc.UnaryServerInfo{FullMethod: method},
